@@ -335,6 +335,14 @@ class Weaver:
             label = "%s %s" % (kind, arg)
             if kind == "fn_start":
                 add_after(bo, "\n" + text, label)
+            elif kind == "tail":
+                # R16: bind the tail expression so that a proof block can follow it
+                ts = self._tail_start(bo, bc)
+                if ts is None:
+                    raise LostAnchor("unit %s: no tail expression" % unit.name)
+                add_before(ts, "let verif_tail =", "R16")
+                add_before(bc, ";\n" + text + "\nverif_tail", label)
+                fired("R16:tail-binding")
             elif kind.startswith("loop_"):
                 kw, hb, hc = loops[arg - 1]
                 if kind == "loop_body_start":
@@ -452,6 +460,60 @@ class Weaver:
         return w
 
     # ---------------------------------------------------------------------------------
+    def _tail_start(self, bo, bc):
+        """token index where the tail expression of the block (bo, bc) starts, or None"""
+        toks = self.idx.toks
+        pairs = self.idx.pairs
+        i = bo + 1
+        while i < bc:
+            start = i
+            t = toks[i]
+            if t.kind == "id" and t.text == "let":
+                k = i
+                while not (toks[k].kind == "p" and toks[k].text == ";"):
+                    if toks[k].kind == "p" and toks[k].text in "([{":
+                        k = pairs[k]
+                    k += 1
+                i = k + 1
+                continue
+            if (t.kind == "id" and t.text in ("if", "while", "for", "loop", "match", "unsafe")) or (t.kind == "p" and t.text == "{"):
+                # block-like statement: skip to the end of its last block
+                k = i
+                while True:
+                    while not (toks[k].kind == "p" and toks[k].text == "{"):
+                        if toks[k].kind == "p" and toks[k].text in "([":
+                            k = pairs[k]
+                        k += 1
+                    k = pairs[k] + 1
+                    if k < bc and toks[k].kind == "id" and toks[k].text == "else":
+                        k += 1
+                        continue
+                    break
+                if k >= bc:
+                    return start      # the block-like expression IS the tail
+                if toks[k].kind == "p" and toks[k].text == ";":
+                    k += 1
+                elif toks[k].kind == "p" and toks[k].text in ".?":
+                    # method call on a block expression: treat as ordinary expression statement
+                    while k < bc and not (toks[k].kind == "p" and toks[k].text == ";"):
+                        if toks[k].kind == "p" and toks[k].text in "([{":
+                            k = pairs[k]
+                        k += 1
+                    if k >= bc:
+                        return start
+                    k += 1
+                i = k
+                continue
+            k = i
+            while k < bc and not (toks[k].kind == "p" and toks[k].text == ";"):
+                if toks[k].kind == "p" and toks[k].text in "([{":
+                    k = pairs[k]
+                k += 1
+            if k >= bc:
+                return start
+            i = k + 1
+        return None
+
     def _tok_out(self, i, subst, fired, unit, ctx):
         """emitted text for token i (type-parameter substitution, R2, R5, R12) and how many
         following tokens were consumed"""
